@@ -6,6 +6,7 @@
 -/
 import DiplomatModel.Lemmas.Write
 import DiplomatModel.Generated.RuntimeTypes
+import DiplomatModel.Lemmas.CppStr
 namespace DiplomatModel.Props.C12
 open DiplomatModel.Write DiplomatModel.Abi DiplomatModel.Generated.RuntimeTypes
 
@@ -114,5 +115,23 @@ example : (run none (foreignInit [] 4) [[104, 105], [1, 2, 3], [9], [7, 7]] [som
     = [true, true, true, false] := by decide
 example : contents (run none (foreignInit [] 4) [[104, 105], [1, 2, 3], [9], [7, 7]] [some 2, none]).1
     = [104, 105, 1, 2, 3, 9] := by decide
+
+open DiplomatModel.CppStr in
+/-- **C++ `std::string` adaptor, flushes anywhere**: whatever sequence of writes and flushes Rust performs through
+    `WriteFromString(s)` — a method may flush in the middle, one writer may serve several calls — the string ends as
+    `s` followed by everything written, nothing was stored outside the string, and the window advertised to Rust is
+    exactly the string after every step. -/
+theorem cpp_string_exact_with_flushes (init : List Nat) (ops : List Op) :
+    (run init ops).str = init ++ written ops
+    ∧ (run init ops).oob = false
+    ∧ (run init ops).len = (run init ops).str.length ∧ (run init ops).cap = (run init ops).str.length
+    ∧ (step (run init ops) .flush).str = init ++ written ops := by
+  have h := run_inv init ops
+  have hf := step_inv init (written ops) (run init ops) .flush h
+  refine ⟨h.content, h.noOob, by rw [h.lenCap, h.capStr], h.capStr, ?_⟩
+  simpa [written] using hf.content
+
+open DiplomatModel.CppStr in
+example : (step (run [104, 105] [.write [33], .flush, .write [], .write [63, 63], .flush]) .flush).str = [104, 105, 33, 63, 63] := by decide
 
 end DiplomatModel.Props.C12
